@@ -22,12 +22,13 @@ MENU = {
     "N-ftype": (False, lambda l: ("addf", "RB", "n", l, "sync")),
     "N-fname": (False, lambda l: ("addf", "RA", "other", l, "async")),
     "N-private": (False, lambda l: ("add", "RA", "n", l, False, "private")),
+    "N-fprivate": (False, lambda l: ("addf", "RA", "n", l, "private")),  # a factory registered (and used) in a private sub-context
 }
 
 
 def pub_sequences(tier: str) -> list[tuple]:
     ms = [k for k, v in MENU.items() if v[0]]
-    ns = [k for k, v in MENU.items() if not v[0] and k != "N-private"]
+    ns = [k for k, v in MENU.items() if not v[0] and k not in ("N-private", "N-fprivate")]
     seqs: list[tuple] = [(m,) for m in ms] + [(n,) for n in ns]
     for m in ms:
         for n in ns:
@@ -41,7 +42,7 @@ def pub_sequences(tier: str) -> list[tuple]:
     else:
         seqs.append(("N-type", "N-name", "M-res"))
         seqs.append(("N-ftype", "N-fname", "M-fasync"))
-    seqs += [("N-private",), ("N-private", "M-res"), ("N-private", "M-fasync")]
+    seqs += [("N-private",), ("N-private", "M-res"), ("N-private", "M-fasync"), ("N-fprivate",), ("N-fprivate", "M-res"), ("N-fprivate", "N-type")]
     return [q for q in seqs if not ("M-multi" in q and "N-type" in q)]
 
 
@@ -127,6 +128,10 @@ class C06(E1Check):
         for n in (3, 60):
             for order in ("wp", "pw"):
                 progs.append({"kind": "burst", "n": n, "order": order, "small": False})
+        # a kind/name component starts a sub-tree from inside its start(); what the sub-tree publishes under the default name stays "default"
+        for order in ("wp", "pw"):
+            for wg, pg in ((False, False), (False, True), (True, False)):
+                progs.append({"kind": "nested-host", "order": order, "wgate": wg, "pgate": pg, "small": True})
         # the waiter first enters and leaves a context of its own, then asks: it still waits like any component
         for order in ("wp", "pw"):
             for wg, pg in ((False, False), (False, True), (True, True)):
@@ -212,6 +217,12 @@ class C06(E1Check):
             steps2.append(("add", "RA", "n", "wanted"))
             pub = {"alias": "p", "children": [], "prepare": None, "start": steps2}
             kids = [w, pub] if p["order"] == "wp" else [pub, w]
+        elif kind == "nested-host":
+            w = {"alias": "w", "children": [], "prepare": None,
+                 "start": ([("gate", "w")] if p["wgate"] else []) + [("get", "RA", "default", "shortcut", False, "w")]}
+            pub = {"alias": "h/special", "children": [], "prepare": None,
+                   "start": ([("gate", "p0")] if p["pgate"] else []) + [("nested-pub", "RA", "default", "nested-pub")]}
+            kids = [w, pub] if p["order"] == "wp" else [pub, w]
         elif kind == "after-subblock":
             w = {"alias": "w", "children": [], "prepare": None,
                  "start": ([("gate", "w")] if p["wgate"] else []) + [("subblock",), ("get", "RA", "n", p["api"], False, "w")]}
@@ -267,14 +278,14 @@ class C06(E1Check):
         return {"alias": "", "children": kids, "prepare": None, "start": None}
 
     def has_match(self, p: dict) -> bool:
-        if p["kind"] in ("multi", "burst", "flaky", "generic", "audit", "giveup", "refused", "alias-nested", "after-subblock"):
+        if p["kind"] in ("multi", "burst", "flaky", "generic", "audit", "giveup", "refused", "alias-nested", "after-subblock", "nested-host"):
             return True
         if p["kind"] == "alias":
             return p["where"] == "start"
         return any(MENU[i][0] for i in p["seq"])
 
     def deadlock_ok(self, program: Any) -> bool:
-        return program["kind"] in ("basic", "alias", "two", "multi", "burst", "flaky", "generic", "audit", "giveup", "refused", "alias-nested", "after-subblock") and not self.has_match(program)
+        return program["kind"] in ("basic", "alias", "two", "multi", "burst", "flaky", "generic", "audit", "giveup", "refused", "alias-nested", "after-subblock", "nested-host") and not self.has_match(program)
 
     async def main(self, env: Any, program: dict) -> None:
         from asphalt.core import Context, ResourceNotFound, start_component
@@ -425,9 +436,9 @@ class C06(E1Check):
                 else:
                     fail("false-failure", f"waiter {who} failed with {ev[2]} (matching publication index {match_idx})")
         # completion: with a matching publication every waiter returns and start-up completes
-        if kind in ("basic", "alias", "two", "multi", "burst", "generic", "audit", "giveup", "refused", "alias-nested", "after-subblock"):
+        if kind in ("basic", "alias", "two", "multi", "burst", "generic", "audit", "giveup", "refused", "alias-nested", "after-subblock", "nested-host"):
             waiters = {"basic": ["w"], "alias": ["w"], "two": ["w1", "w2"], "multi": ["wa", "wb"], "burst": ["w"], "generic": ["w"], "audit": ["w"],
-                       "giveup": ["w"], "refused": ["w"], "alias-nested": ["w"], "after-subblock": ["w"]}[kind]
+                       "giveup": ["w"], "refused": ["w"], "alias-nested": ["w"], "after-subblock": ["w"], "nested-host": ["w"]}[kind]
             if self.has_match(program):
                 for w in waiters:
                     if not any(ev[0] == "get-" and ev[1] == w for ev in tr):
